@@ -75,7 +75,7 @@ def run(pid, tier, args):
         if args.replay:
             return do_replay(vhbin, wd, args.replay, v, pid)
         alpha = list("abclsne") if tier == "quick" else list("abclrsnex")
-        nrandom = 40 if tier == "quick" else 260
+        nrandom = (40 if pid == "C03" else 25) if tier == "quick" else 260
         maxin = 4
         extra = 2
         cases = gen_lex.family(vlib.seed(), nrandom)
@@ -144,6 +144,39 @@ def run(pid, tier, args):
                 raise Infra("liveness run failed on the model: %s" % (lres.violation or lres.error))
             v.add_tlc(lres)
             v.notes["liveness"] = "Terminates (<>(status # run) under WF(NextCall)) checked on %d curated maps" % len(cur)
+        if pid == "C07":
+            # the same clauses on generated lexers (supported-class definitions incl. Pop/Return reachable in Root)
+            from props import genlexer
+            gd = os.path.join(wd, "gen07")
+            os.makedirs(gd)
+            gcases = [c for c in gen_lex.family(vlib.seed(), 0 if tier == "quick" else 40, supported_only=True)]
+            if tier == "quick":
+                gcases = [c for c in gcases if c["id"] in ("G0", "G8", "G23", "G24", "G26", "G27")]
+            graw = os.path.join(gd, "raw.json")
+            gen_lex.write(graw, alpha, gcases)
+            vlib.vh(vhbin, ["lex-prep", graw, os.path.join(gd, "cases.json")])
+            gbyid = {c["id"]: c for c in gcases}
+            gen = genlexer.build_generator(wd)
+            vlib.vh(vhbin, ["gen-lexers", graw, gen, os.path.join(wd, "harness-src", "genlex")])
+            vhgen = genlexer.build_with_generated(wd, v, pid, gbyid)
+            gres = vlib.run_tlc(wd, "MC_StatefulLexer", modules=["StatefulLexer", "Regex", "Position"], extra_files=[os.path.join(gd, "cases.json")],
+                                consts={"MaxIn": 3 if tier == "quick" else 4, "ExtraCalls": extra}, timeout=3000)
+            if not gres.ok:
+                raise Infra("MC_StatefulLexer on the generated-lexer family: %s" % (gres.violation or gres.error))
+            v.add_tlc(gres)
+            gexp = ["|".join(f) for f in vlib.parse_lines(gres.lines, "EXPECT")]
+            gef = os.path.join(gd, "expect.txt")
+            open(gef, "w").write("\n".join(gexp) + "\n")
+            out = vlib.vh(vhgen, ["lex-run", graw, gef, str(extra), "generated"])
+            seen = set()
+            for line in out.splitlines():
+                p = line.split("\t")
+                if p[0] == "MISMATCH" and any(b in p[5] for b in BAD_C07) and p[1] not in seen:
+                    seen.add(p[1])
+                    v.violation("generated lexer for %s on input %r: %s" % (p[1], p[2], p[5]), {"property": pid, "kind": "lexrun", "maker": "generated", "alpha": alpha, "case": gbyid[p[1]], "input": p[2], "why": p[3], "spec": p[4], "real": p[5]})
+                elif p[0] == "DONE":
+                    v.validated(int(p[1]))
+            v.notes["generated_lexers"] = "%d definitions compiled and run with %d extra calls" % (len(gcases), extra)
         if pid == "C03" and tier == "thorough":
             # NewSimple path for one-state maps
             res2, exp2, mism2, done2, nodef = mc_and_replay(wd, vhbin, rawpath, 3, 0, maker="simple")
